@@ -410,7 +410,7 @@ func genAPI(r *hx.Rand, tier string) input {
 func gen(r *hx.Rand, tier string) []json.RawMessage {
 	nasm, nleaf, napi := 50, 15, 100
 	if tier == "thorough" {
-		nasm, nleaf, napi = 400, 500, 1500
+		nasm, nleaf, napi = 250, 100, 1000
 	}
 	var out []json.RawMessage
 	for i := 0; i < napi; i++ {
